@@ -102,6 +102,33 @@ func init() {
 	)}
 }
 
+func init() {
+	knownRepros["F-KEYCOLLIDE"] = knownRepro{"history:C13", hist(worldCfg{V1: true, V2: true, WhiteBox: true},
+		model.Op{Kind: "CreateTable", Schema: sTable("tbl", true)},
+		model.Op{Kind: "Put", Table: "tbl", Item: model.Item{"pk": model.Str("a.b"), "sk": model.Str("c"), "v": model.Str("first")}},
+		model.Op{Kind: "Put", Table: "tbl", Item: model.Item{"pk": model.Str("a"), "sk": model.Str("b.c"), "v": model.Str("second")}},
+		model.Op{Kind: "Get", Table: "tbl", Key: model.Item{"pk": model.Str("a.b"), "sk": model.Str("c")}},
+	)}
+}
+
+func init() {
+	knownRepros["F-RESNESTED"] = knownRepro{"c16word", c16Word{Kind: "cond", Expr: "m.ABORT = :v", Word: "ABORT", Expect: "reject"}}
+	knownRepros["F-KEYCONDSHAPE"] = knownRepro{"history:C16", hist(bothClients,
+		model.Op{Kind: "CreateTable", Schema: sTable("tbl", true)},
+		model.Op{Kind: "Put", Table: "tbl", Item: model.Item{"pk": model.Str("a"), "sk": model.Str("b")}},
+		model.Op{Kind: "Query", Table: "tbl", KeyCond: "sk = :a", Values: map[string]model.AV{":a": model.Str("b")}},
+	)}
+	knownRepros["F-SUBSTR"] = knownRepro{"history:C16", hist(bothClients,
+		model.Op{Kind: "CreateTable", Schema: sTable("tbl", false)},
+		model.Op{Kind: "Scan", Table: "tbl", Filter: "a = :pp", Values: map[string]model.AV{":pp": model.Str("x"), ":p": model.Str("y")}},
+	)}
+	knownRepros["F-UNDEFPH"] = knownRepro{"history:C16", hist(bothClients,
+		model.Op{Kind: "CreateTable", Schema: sTable("tbl", false)},
+		model.Op{Kind: "Put", Table: "tbl", Item: pkItem("a", nil)},
+		model.Op{Kind: "Scan", Table: "tbl", Filter: "a = :v"},
+	)}
+}
+
 // TestGenKnown writes the repro files.
 func TestGenKnown(t *testing.T) {
 	if os.Getenv("VERIF_GEN_KNOWN") == "" {
